@@ -464,7 +464,7 @@ func (st *State) specIndex(x, i Value, env *specEnv) Value {
 	}
 	switch u := x.T.Underlying().(type) {
 	case *types.Slice:
-		ii := st.coerceTo(i, BV(64), env)
+		ii := st.coerceTo(st.widenIndex(i), BV(64), env)
 		es := te.SortOf(u.Elem())
 		if _, isStruct := u.Elem().Underlying().(*types.Struct); isStruct {
 			return st.loadH(env.heap, elemAddr(app("s_ref", x.Term), app("bvadd", app("s_off", x.Term), ii.Term)), u.Elem())
@@ -472,24 +472,36 @@ func (st *State) specIndex(x, i Value, env *specEnv) Value {
 		arr := st.elemsArr(env.heap, es)
 		return Value{T: u.Elem(), S: es, Term: app("select", app("select", arr, app("s_ref", x.Term)), app("bvadd", app("s_off", x.Term), ii.Term))}
 	case *types.Array:
-		ii := st.coerceTo(i, BV(64), env)
+		ii := st.coerceTo(st.widenIndex(i), BV(64), env)
 		return Value{T: u.Elem(), S: te.SortOf(u.Elem()), Term: app("select", x.Term, ii.Term)}
 	case *types.Map:
 		k := st.coerceTo(i, te.SortOf(u.Key()), env)
 		_, v := st.mapLookupH(env.heap, x, u, k.Term)
 		return v
 	case *types.Basic:
-		ii := st.coerceTo(i, BV(64), env)
+		ii := st.coerceTo(st.widenIndex(i), BV(64), env)
 		return Value{T: types.Typ[types.Byte], S: BV(8), Term: app("str_at", x.Term, ii.Term)}
 	case *types.Pointer:
 		if at, ok := u.Elem().Underlying().(*types.Array); ok {
-			ii := st.coerceTo(i, BV(64), env)
+			ii := st.coerceTo(st.widenIndex(i), BV(64), env)
 			es := te.SortOf(at.Elem())
 			return Value{T: at.Elem(), S: es, Term: app("select", app("select", st.elemsArr(env.heap, es), x.Term), ii.Term)}
 		}
 	}
 	env.fail("cannot index %s", typeStr(x.T))
 	return Value{}
+}
+
+// widenIndex: an index of a narrower integer type is extended to 64 bits (as Go does).
+func (st *State) widenIndex(i Value) Value {
+	if i.Untyped != nil || !i.S.IsBV() || i.S.Bits() == 64 {
+		return i
+	}
+	T := i.T
+	if T == nil {
+		T = types.Typ[types.Uint32]
+	}
+	return Value{T: types.Typ[types.Int], S: BV(64), Term: st.toInt64(Value{T: T, S: i.S, Term: i.Term}, T)}
 }
 
 // coerceTo adapts untyped constants and nil to a sort.
